@@ -84,6 +84,9 @@ Proof.
             (Inv s' /\ (M3 s -> marked_ok s (Update f) -> M3 s') /\ (Fresh s -> fresh_ok s (Update f) -> Fresh s')) ->
             post (Update f) s s').
   { intros s' (l & <- & Hn) (A & B & D). split; [exact A | split; [exact B | split; [exact D | exact Hn]]]. }
+  assert (Chain : forall t, upd s0 t -> forall o k, cache_of t id o = Some k ->
+            cache_of s id o = Some k \/ k = generate o f).
+  { intros t Ut o k H. destruct (u_new _ _ Ut _ _ _ H) as [H1|[_ H1]]; [left; exact H1 | right; rewrite H1, Atid; reflexivity]. }
   destruct (fmatches (filt s) f) eqn:Emf.
   - destruct (view_contains_spec id s0 C0) as (b & s1 & E1 & X1 & Hb). rewrite (bind_ok _ _ _ _ _ E1).
     assert (C1 : CoreV s1) by (apply (CoreV_updm s0 s1); [apply (e_updm _ _ X1) | apply (e_view _ _ X1) | exact C0]).
@@ -128,6 +131,82 @@ Proof.
               * right. split; [exact H2 | auto].
               * left. rewrite H2, Atid. reflexivity.
             + left. rewrite H1, (attr_cfg _ _ id Cf1), Atid. reflexivity. }
-    + admit.
-  - admit.
-Admitted.
+    + (* not shown yet: show it *)
+      assert (Hn : ~ In id (raw_ids s)) by (intros H; apply Hb in H; discriminate).
+      change (_base_add id ;;; ff <- gets focus_follow ;; (if ff then focus_set_flow (Some id) else ret tt) ;;; send_view_add id)
+        with (show_flow id).
+      assert (Hst1 : In id (store s1)) by (rewrite (ce_store _ _ Cf1); exact Em).
+      assert (Hf1 : forall g, focus s1 = Some g -> In g (raw_ids s1)).
+      { intros g Hg. rewrite (e_focus _ _ X1) in Hg. rewrite R1. pose proof (i_focus _ I) as F. unfold FocusOk in F.
+        change (focus s0) with (focus s) in Hg. rewrite Hg in F. exact F. }
+      destruct (show_flow_spec id s1 C1 Hst1) as (s2 & E2 & U2 & C2 & F2 & P2 & L2); [rewrite R1; exact Hn | exact Hf1 |].
+      exists s2. split; [exact E2|].
+      assert (U : upd s0 s2) by (eapply upd_trans; [apply (um_upd _ _ (e_updm _ _ X1)) | apply (um_upd _ _ U2)]).
+      rewrite R1 in P2.
+      apply Fin.
+      * eexists. split; [reflexivity|]. rewrite L2, (e_log _ _ X1). change (log s0) with (log s). rewrite L. simpl.
+        apply (n_add id _ (raw_ids s2)); [exact Hn | symmetry; exact P2 | apply n_done; reflexivity].
+      * apply (update_post f s s2 I Em U C2 F2).
+        { intros x Hne. split; intros H.
+          - apply (Permutation_in _ P2) in H. destruct H as [H|H]; [exfalso; apply Hne; symmetry; exact H | exact H].
+          - apply (Permutation_in _ (Permutation_sym P2)). right. exact H. }
+        { split; [intros _; exact Emf | intros _; apply (Permutation_in _ (Permutation_sym P2)); left; reflexivity]. }
+        { intros o k H. destruct (Chain _ U _ _ H) as [H1|H1]; [right; split; [exact H1 | right; left; exact Hn] | left; exact H1]. }
+  - destruct (view_find_spec id s0 C0) as (r & s1 & E1 & X1 & Hs & Hnone). rewrite (bind_ok _ _ _ _ _ E1).
+    assert (C1 : CoreV s1) by (apply (CoreV_updm s0 s1); [apply (e_updm _ _ X1) | apply (e_view _ _ X1) | exact C0]).
+    assert (R1 : raw_ids s1 = raw_ids s) by (unfold raw_ids; rewrite (e_view _ _ X1); reflexivity).
+    assert (F1 : FocusOk s1).
+    { eapply FocusOk_eq; [apply (e_view _ _ X1) | apply (e_focus _ _ X1) | apply (i_focus _ I)]. }
+    destruct r as [idx|].
+    + (* shown but no longer matching: take it out of the view *)
+      assert (Hnth : nth_error (raw_ids s) idx = Some id) by (apply Hs; reflexivity).
+      assert (Hin : In id (raw_ids s)) by (eapply nth_error_In; eauto).
+      destruct (view_remove_spec id s1 C1) as (s2 & E2 & U2 & F2 & L2 & k & l1 & l2 & V1 & V2); [rewrite R1; exact Hin|].
+      rewrite (bind_ok _ _ _ _ _ E2).
+      destruct (CoreV_remove s1 s2 k id l1 l2 C1 U2 V1 V2) as (C2 & Hn2 & P2). rewrite R1 in P2.
+      assert (Hf2 : match focus s2 with Some g => g = id \/ In g (raw_ids s2) | None => False end).
+      { rewrite F2, (e_focus _ _ X1). change (focus s0) with (focus s).
+        pose proof (i_focus _ I) as F. unfold FocusOk in F. destruct (focus s) as [g|].
+        - destruct (N.eq_dec g id) as [->|Hne]; [left; reflexivity | right; apply (in_perm_cons _ _ _ _ P2 Hne); exact F].
+        - unfold raw_ids in Hin. rewrite F in Hin. destruct Hin. }
+      destruct (send_view_remove_spec id idx s2 C2 Hf2) as (s3 & E3 & X3 & F3).
+      exists s3. split; [exact E3|].
+      assert (U : upd s0 s3).
+      { eapply upd_trans; [apply (um_upd _ _ (e_updm _ _ X1))|].
+        eapply upd_trans; [apply (um_upd _ _ U2) | apply (um_upd _ _ (sn_updm _ _ _ X3))]. }
+      assert (R3 : raw_ids s3 = raw_ids s2) by apply (sent_raw_ids _ _ _ X3).
+      apply Fin.
+      * eexists. split; [reflexivity|]. rewrite (sn_log _ _ _ X3), L2, (e_log _ _ X1). change (log s0) with (log s). rewrite L. simpl.
+        apply (n_remove id idx _ (raw_ids s2)); [exact Hnth | exact P2 | exact Hn2 | apply n_done; rewrite R3; reflexivity].
+      * apply (update_post f s s3 I Em U (sent_CoreV _ _ _ X3 C2) F3).
+        { intros x Hne. rewrite R3. apply (in_perm_cons _ _ _ _ P2 Hne). }
+        { split; [intros H; rewrite R3 in H; contradiction | intros H; congruence]. }
+        { intros o k' H. destruct (Chain _ U _ _ H) as [H1|H1]; [right; split; [exact H1 | right; right; exact Emf] | left; exact H1]. }
+    + (* hidden and still not matching *)
+      assert (Hn : ~ In id (raw_ids s)) by (apply Hnone; reflexivity).
+      exists s1. split; [reflexivity|].
+      apply Fin.
+      * eexists. split; [reflexivity|]. rewrite (e_log _ _ X1). change (log s0) with (log s). rewrite L.
+        apply n_done. rewrite R1. reflexivity.
+      * apply (update_post f s s1 I Em (um_upd _ _ (e_updm _ _ X1)) C1 F1).
+        { intros x _. rewrite R1. tauto. }
+        { split; [intros H; rewrite R1 in H; contradiction | intros H; congruence]. }
+        { intros o k H. destruct (Chain _ (um_upd _ _ (e_updm _ _ X1)) _ _ H) as [H1|H1];
+            [right; split; [exact H1 | right; right; exact Emf] | left; exact H1]. }
+Qed.
+
+(* ---------- every operation ---------- *)
+Lemma do_op_ok o s : Inv s -> log s = [] -> exists s', do_op o s = Ok (tt, s') /\ post o s s'.
+Proof.
+  destruct o.
+  - apply do_add.
+  - apply do_update.
+  - apply do_remove.
+  - apply do_set_filter.
+  - apply do_set_order.
+  - apply do_set_reversed.
+  - apply do_toggle_marked.
+  - apply do_clear.
+  - apply do_clear_not_marked.
+  - apply do_focus_follow.
+Qed.
